@@ -54,12 +54,18 @@ def _input(line):
 
 def _header(line):
     # name[ addr][ (NOLOAD)] :[ AT(sym)][ SUBALIGN(n)]
-    m = re.fullmatch(r"(\S+)((?: .*?)?)( \(NOLOAD\))? :( AT\((.*?)\))?( SUBALIGN\((\d+)\))?", line)
+    m = re.fullmatch(r"(.*?) :( AT\((.*?)\))?( SUBALIGN\((\d+)\))?", line)
     if not m:
         return None
-    addr = m.group(2)[1:] if m.group(2) else None
-    return {"k": "outsec", "name": m.group(1), "addr": addr, "noload": bool(m.group(3)),
-            "at": m.group(5), "subalign": int(m.group(7)) if m.group(7) else None, "body": []}
+    left = m.group(1)
+    noload = left.endswith(" (NOLOAD)")
+    if noload:
+        left = left[:-len(" (NOLOAD)")]
+    name, sep, addr = left.partition(" ")
+    if not name:
+        return None
+    return {"k": "outsec", "name": name, "addr": addr if sep else None, "noload": noload,
+            "at": m.group(3), "subalign": int(m.group(5)) if m.group(5) else None, "body": []}
 
 
 def parse_script(text):
